@@ -64,12 +64,14 @@ def sig_consts(maxn, maxpre=2, maxtrail=1, panic_aborts=False, kinds=False, reg=
     return c
 
 
-def rw_consts(maxticks, tbd, close_late=False, stop_on_cancel=False, gen=False):
+def rw_consts(maxticks, tbd, close_late=False, stop_on_cancel=False, gen=False, extra_refreshes=False, max_extra=2):
     c = {"MaxTicks": maxticks, "ROSChoices": "{TRUE, FALSE}", "RefOutcomes": '{"nil", "err"}',
          "AllowTBD": "TRUE" if tbd else "FALSE", "CloseLate": "TRUE" if close_late else "FALSE",
-         "SctxInit": '{"live", "cancelled"}', "StopOnCancel": "TRUE" if stop_on_cancel else "FALSE"}
+         "SctxInit": '{"live", "cancelled"}', "StopOnCancel": "TRUE" if stop_on_cancel else "FALSE",
+         "MaxExtra": max_extra, "ExtraRefreshes": "TRUE" if extra_refreshes else "FALSE"}
     if gen:
         c["CancelUpTo"] = 2
+        c["ExtraChoices"] = "{0, 2}"
     return c
 
 
@@ -91,7 +93,8 @@ def run(ctx):
         "offered; also with a loop refresh in flight and right after Start",
         "TickBeatsDone is modelled, not provoked: whether a refresh for a tick already pending at Shutdown counts as "
         "'after Shutdown' is not settled by the statement",
-        "Shutdown is called once; Start before Shutdown",
+        "Start before Shutdown; Shutdown may be called again after it returned: such a call may panic (the code) or "
+        "return, it must not cause a further Refresh",
         "the context passed to Start may be cancelled at any time (already at Start, right after it, while the worker "
         "waits); it reaches the refresher through the constructor, the worker itself must not stop on it",
         "Add is not called concurrently with Handle (documented); what the caller does to a slice after Add returned "
@@ -132,7 +135,7 @@ def run(ctx):
                                "got %r" % r.violated)
         ctx.extra["design_level_registration_check"] = ("%s violated when Add keeps the caller's slice and the caller "
                                                         "reuses its buffer (as expected)" % r.violated)
-    write_cfg(d / "RWMC_run.cfg", "WSpec", rw_consts(3 if q else 5, True), invariants=RW_INV,
+    write_cfg(d / "RWMC_run.cfg", "WSpec", rw_consts(3 if q else 5, True, max_extra=1 if q else 2), invariants=RW_INV,
               properties=["StoppedIsFinal", "EventuallyStops"])
     ctx.tlc(d, "RefreshWorker", "RWMC_run.cfg", label="refresh-mc", timeout=1200)
     # A Shutdown that closes done only on return (`defer close(w.done)`), shown on the design: a tick taken
@@ -148,6 +151,17 @@ def run(ctx):
                                "got %r" % r.violated)
         ctx.extra["design_level_start_context_check"] = ("StopsOnlyOnShutdown violated when the loop watches the "
                                                          "Start context (as expected)")
+    # A repeated Shutdown that refreshes again (close(done) in a sync.Once, the RefreshOnShutdown branch not).
+    write_cfg(d / "RWMC_extra.cfg", "WSpec", rw_consts(1, True, extra_refreshes=True),
+              invariants=["NoRefreshAfterShutdown"])
+    if demos:
+        r = ctx.tlc(d, "RefreshWorker", "RWMC_extra.cfg", label="refresh-mc-repeated-shutdown-refreshes(expected to fail)",
+                    expect_ok=False, count=False)
+        if r.violated != "NoRefreshAfterShutdown":
+            raise CheckerError("the ExtraRefreshes variant of RefreshWorker.tla should violate NoRefreshAfterShutdown, "
+                               "got %r" % r.violated)
+        ctx.extra["design_level_repeated_shutdown_check"] = ("NoRefreshAfterShutdown violated when a repeated Shutdown "
+                                                             "refreshes again (as expected)")
     write_cfg(d / "RWMC_closelate.cfg", "WSpec", rw_consts(2, True, close_late=True),
               invariants=["NoRefreshAfterShutdown"])
     if demos:
